@@ -8,8 +8,10 @@ unit and whose preferences select that topic and unit (all accessible units, uni
 or listed units). Each subscription is notified at most once, and a new-contributor notification never goes to
 the contributor it is about."
 
-`publish db p` is the list of subscription rows that `WebPushPublisher.publish_message` hands to
-`_post_webpush` (code as it is).  `db` is arbitrary in the targeting theorems; the at-most-once theorem needs the
+`publish nc db p` is the list of subscription rows that `WebPushPublisher.publish_message` hands to
+`_post_webpush` (code as it is); `nc` is the number of the NEW_CONTRIBUTOR topic (the theorems hold for any numbering).
+`contribute nc db e c env` is the tail of the requests that make user `c` a contributor of engine `e`, including the
+construction of the notification in `FromFrontend.publish_new_contributor_notification` (end-to-end section below).  `db` is arbitrary in the targeting theorems; the at-most-once theorem needs the
 row ids to be distinct, which is shown for every database reachable through the repository operations (`run h`).
 -/
 namespace OPM.C33
